@@ -21,5 +21,5 @@ def run(ctx):
         "journal arithmetically; correspondence + implementation-side probe at limit and limit+1",
         "limits probe on the real server (names of length name_max and name_max+1 for CREATE/MKDIR/SYMLINK/RENAME, WRITE of wtmax and wtmax+1 bytes, "
         "writes and SETATTR at maxfilesize and beyond, offsets up to 2^64-1) replayed on the model; plus the C02 generator with name lengths 110..114, 255, 300",
-        ["that a WRITE dirties at most count/4096+1 data, 4 index, 1 inode and NBlockBitmap bitmap blocks is argued in DESIGN.md, not yet proved on a block-map model"],
-        pending=["wtmax_fits_journal on the block-map model (M7)"])
+        ["that a WRITE touches at most 4 index blocks is proved on the block-map model M7 (write_dirties_at_most_four_index_blocks); that it dirties count/4096+1 data blocks, 1 inode block and at most NBlockBitmap bitmap blocks is by construction of the model (one data block per file block) and argued in DESIGN.md for the bitmap"],
+        pending=[])
